@@ -348,7 +348,14 @@ pub fn control_string(r: &mut Rng) -> String {
             }
         }
     };
-    format!("{}{}{}", intro, payload(r, kind == 0), term)
+    let mut pl = payload(r, kind == 0);
+    if kind == 1 && r.chance(1, 4) {
+        // a DCS with 30..35 parameters before its final byte (the parameter array saturates at 32)
+        let n = r.range(30, 35);
+        let ps: Vec<String> = (0..n).map(|i| if r.chance(1, 4) { String::new() } else { format!("{}", (i * 3) % 70) }).collect();
+        pl = format!("{}{}{}", ps.join(";"), r.pick(&["q", "|", "{", "p"]), pl);
+    }
+    format!("{}{}{}", intro, pl, term)
 }
 
 /// CSI / ESC sequences and controls that avt does not implement.
@@ -430,7 +437,14 @@ pub fn near_miss(r: &mut Rng) -> String {
             let f2 = if fin == "h" || fin == "l" { "m" } else { fin };
             format!("{}?{}{}", csi(r), params, f2)
         }
-        3 => format!("{}?{}{}", csi(r), r.pick(&["4", "20", "2", "3", "5", "8", "12", "1000", "2004", "1046", "1050", "4;20"]), r.pick(&["h", "l"])),
+        3 => {
+            if r.chance(1, 3) {
+                // several intermediates: the sequence is not the DECSTR spelling even if it starts like it
+                format!("{}{}!{}p", csi(r), r.pick(&["", "1", "0"]), r.pick(&[" ", "$", "\"", "#", "'"]))
+            } else {
+                format!("{}?{}{}", csi(r), r.pick(&["4", "20", "2", "3", "5", "8", "12", "1000", "2004", "1046", "1050", "4;20"]), r.pick(&["h", "l"]))
+            }
+        }
         _ => format!("{}{}{}", csi(r), r.pick(&["1", "6", "7", "25", "47", "1047", "1048", "1049", "1;6", "5", "3"]), r.pick(&["h", "l"])),
     }
 }
